@@ -585,8 +585,11 @@ def apply_edit(kind, o, e):
             if getattr(o, "_lights", None) is None:
                 raise Inapplicable()
             L = o.lights[i % len(o.lights)]
-            if e.get("which", 0) % 2:
+            if e.get("which", 0) % 3 == 1:
                 L.intensity = 1.0 + d
+            elif e.get("which", 0) % 3 == 2:
+                # the colour array the light hands out, edited in place
+                L.color[:3] = [i % 256, 7, 5]
             else:
                 L.color = [i % 256, 9, 9, 255]
         elif k == "edge_meta_inplace":
